@@ -158,7 +158,6 @@ fn case(seed: u64, index: u64) -> CaseOut {
             *known = k.map(|s| s.to_string());
         }
     };
-    let wrap_in_history = lives.iter().any(|l| l.serial == 0 && l.rcode == 0) || dump_serial(&d0) == u32::MAX || lives.iter().any(|l| l.serial == u32::MAX);
     for &k in &ks {
         let rec = if use_file { recover_file(&live_path, k, &scratch) } else { recover_mem(&rows, k) };
         match rec {
@@ -178,7 +177,7 @@ fn case(seed: u64, index: u64) -> CaseOut {
                         if rzone_of(ld) != rzone_of(&d) || *ld != d && rzone_of(ld) != rzone_of(&d) {
                             note(format!("cut after {k} rows = after {nmsg} whole messages: recovered zone {} differs from the zone the server held {}", txt_dump(&d), txt_dump(ld)), None, &mut oracle_fail, &mut known);
                         } else if ls != s {
-                            let kn = if wrap_in_history { Some("C14-serial-wrap-replay") } else { None };
+                            let kn: Option<&str> = None; // C14-serial-wrap-replay is repaired (fix 118f816)
                             note(format!("cut after {k} rows = after {nmsg} whole messages: recovered serial {s}, the server had answered with {ls}"), kn, &mut oracle_fail, &mut known);
                         }
                     }
@@ -227,7 +226,7 @@ fn case(seed: u64, index: u64) -> CaseOut {
                 let (s, d) = (block_on(hu.serial()), dump(&hu));
                 let o = &cont_obs[i];
                 if (rc, s, rzone_of(&d)) != (o.0, o.1, rzone_of(&o.2)) {
-                    let kn = if wrap_in_history { Some("C14-serial-wrap-replay") } else { None };
+                    let kn: Option<&str> = None; // C14-serial-wrap-replay is repaired (fix 118f816)
                     note(
                         format!("after recovery at row {kc} (= {nmsg} whole messages) message {} answered rc{}/s{} zone {}; without the restart rc{rc}/s{s} zone {}", txt_msg(m), o.0, o.1, txt_dump(&o.2), txt_dump(&d)),
                         kn,
